@@ -15,9 +15,10 @@ package history
 //@   ensures result == len(entries(self))
 
 //@ fntype (Source).GetLine
-//@   assumed interface contract: total (never panics); in range it returns the stored line and no error
+//@   assumed interface contract: total (never panics); in range it returns the stored line and no error; out of range it returns an error or the empty string
 //@   pure
 //@   ensures 0 <= p0 && p0 < len(entries(self)) ==> result1 == nil && result0 == entries(self)[p0]
+//@   ensures !(0 <= p0 && p0 < len(entries(self))) ==> result1 != nil || (len(result0) == 0 && len(entries(self)) == 0)
 
 // appended1(s, line): source s got exactly one new entry, equal to line up to surrounding white space
 //@ pred appended1(s Source, line string) = len(entries(s)) == old(len(entries(s))) + 1 && entries(s)[:old(len(entries(s)))] == old(entries(s)) && strtrim(entries(s)[old(len(entries(s)))]) == strtrim(line)
@@ -42,6 +43,7 @@ package history
 //@   requires h != nil
 //@   pure
 //@   ensures 0 <= i && i < len(h.items) ==> result1 == nil && result0 == h.items[i]
+//@   ensures !(0 <= i && i < len(h.items)) ==> result1 != nil || (len(result0) == 0 && len(h.items) == 0)
 
 //@ func (*memory).Write
 //@   props C08 C09 C01
@@ -64,6 +66,7 @@ package history
 //@   requires h != nil
 //@   pure
 //@   ensures 0 <= pos && pos < len(h.lines) ==> result1 == nil && result0 == h.lines[pos].Block
+//@   ensures !(0 <= pos && pos < len(h.lines)) ==> result1 != nil || (len(result0) == 0 && len(h.lines) == 0)
 
 // ---------------------------------------------------------------------------------------
 // Undo history (C07)
@@ -187,8 +190,10 @@ package history
 //@ spec hline(h *Sources) string = str(*h.line)
 //@ pred isdup(s Source, line string) = old(len(entries(s))) > 0 && len(old(entries(s))[old(len(entries(s))) - 1]) > 0 && strtrim(old(entries(s))[old(len(entries(s))) - 1]) == strtrim(line)
 //@ pred isfull(h *Sources, s Source) = h.maxEntries == 0 || (h.maxEntries > 0 && old(len(entries(s))) >= h.maxEntries)
-// sources bound under different names are different objects
-//@ pred hdistinct(h *Sources) = allkeys(a, h.list, allkeys(b, h.list, a == b || h.list[a] == nil || h.list[a] != h.list[b]))
+// sources bound under different names are different objects: stated through a ghost "the name this source
+// is bound under", which makes distinctness a congruence argument for the solver
+//@ ghost srcname(s Source) string
+//@ pred hdistinct(h *Sources) = allkeys(a, h.list, h.list[a] == nil || srcname(h.list[a]) == a)
 
 //@ func (*Sources).Write
 //@   props C08 C01
@@ -221,3 +226,76 @@ package history
 //@   ensures [returned-is-accepted] h.accepted ==> result0 && result1 == str(h.acceptLine) && result2 == h.acceptErr
 //@   ensures !h.accepted ==> !result0
 //@   ensures allobj(s, "Source", entries(s) == old(entries(s)))
+
+// ---------------------------------------------------------------------------------------
+// C09: history navigation and search are faithful and non-destructive.
+// None of these functions has entries(...) in its assigns clause: the frame obligations prove that the
+// sources are never modified; the postconditions say what ends up in the buffer.
+
+//@ pred hnav(h *Sources) = hvalid(h) && allok() && !h.undoing && h.config != nil && h.hint != nil && -1 <= h.hpos
+// the text the user was typing: what Save put in slot -1 of the active source's line histories
+//@ spec typedlh(h *Sources) *lineHistory = mget(hmap(h), -1)
+
+//@ func (*Sources).setLineCursorMatch
+//@   props C09 C01
+//@   terminates
+//@   requires hvalid(h) && h.config != nil
+//@   assigns *h.line, h.cursor.pos, h.cursor.mark, h.cpos
+//@   ensures *h.line == runes(next) && core.cok(h.cursor)
+
+//@ func (*Sources).restoreLineBuffer
+//@   props C09 C01
+//@   terminates
+//@   requires hvalid(h)
+//@   assigns h.hpos, *h.line, h.cursor.pos, h.cursor.mark, mapof(h.lines)
+//@   ensures h.hpos == -1
+//@   ensures [restores-typed-text] hcur(h) != nil && old(typedlh(h)) != nil && old(len(typedlh(h).items)) > 0 ==> *h.line == runes(old(typedlh(h).items[len(typedlh(h).items) - 1].line))
+//@   ensures [or-keeps] !(hcur(h) != nil && old(typedlh(h)) != nil && old(len(typedlh(h).items)) > 0) ==> *h.line == old(*h.line)
+
+//@ func (*Sources).Walk
+//@   props C09 C01
+//@   terminates
+//@   requires hnav(h)
+//@   assigns h.hpos, h.cpos, h.skip, h.undoing, *h.line, h.cursor.pos, h.cursor.mark, mapof(h.lines), anymapof("map[int]*lineHistory"), anyof("lineHistory", "pos"), anyof("lineHistory", "items"), anyof("ui.Hint", "*")
+//@   ensures [sources-untouched] allobj(s, "Source", entries(s) == old(entries(s)))
+//@   ensures [position-in-range] hcur(h) != nil ==> -1 <= h.hpos && h.hpos <= max(len(entries(hcur(h))), old(h.hpos))
+//@   ensures [shows-entry] hcur(h) != nil && h.hpos >= 1 && h.hpos <= len(entries(hcur(h))) && h.hpos != old(h.hpos) && (curlh(h) == nil || len(curlh(h).items) == 0) ==> *h.line == runes(entries(hcur(h))[len(entries(hcur(h))) - h.hpos])
+//@   ensures [shows-edited-entry] hcur(h) != nil && h.hpos >= 1 && h.hpos <= len(entries(hcur(h))) && h.hpos != old(h.hpos) && curlh(h) != nil && len(curlh(h).items) > 0 ==> *h.line == runes(curlh(h).items[len(curlh(h).items) - 1].line)
+//@   ensures [step] hcur(h) != nil && len(entries(hcur(h))) > 0 && old(h.hpos) >= 1 && old(h.hpos) + pos >= 1 && old(h.hpos) + pos <= len(entries(hcur(h))) && !(old(h.hpos) == len(entries(hcur(h))) && pos == 1) ==> h.hpos == old(h.hpos) + pos
+
+//@ func (*Sources).Fetch
+//@   props C09 C01
+//@   terminates
+//@   requires hnav(h)
+//@   assigns h.cpos, *h.line, h.cursor.pos, h.cursor.mark, anyof("ui.Hint", "*")
+//@   ensures [sources-untouched] allobj(s, "Source", entries(s) == old(entries(s)))
+//@   ensures [entry-or-unchanged] *h.line == old(*h.line) || (hcur(h) != nil && 0 <= pos && pos < len(entries(hcur(h))) && *h.line == runes(entries(hcur(h))[pos]))
+
+//@ func (*Sources).GetLast
+//@   props C09 C01
+//@   terminates
+//@   requires hvalid(h)
+//@   pure
+//@   ensures hcur(h) != nil && len(entries(hcur(h))) > 0 ==> result == entries(hcur(h))[len(entries(hcur(h))) - 1]
+//@   ensures hcur(h) == nil || len(entries(hcur(h))) == 0 ==> len(result) == 0
+
+//@ func (*Sources).match
+//@   props C09 C01
+//@   terminates
+//@   requires hvalid(h) && match != nil && (cur != nil ==> core.cvalid(cur)) && (hcur(h) != nil ==> h.hpos <= len(entries(hcur(h))))
+//@   assigns cur.pos, cur.mark
+//@   ensures [match-is-entry] result2 && len(entries(hcur(h))) > 0 ==> hcur(h) != nil && 0 <= result1 && result1 < len(entries(hcur(h))) && result0 == entries(hcur(h))[result1]
+//@   ensures [match-is-entry] result2 && len(entries(hcur(h))) == 0 ==> len(result0) == 0
+//@   ensures [no-match] !result2 ==> len(result0) == 0 && result1 == 0
+//@   ensures [prefix-match] result2 && !regex && cur == nil ==> len(str(*match)) <= len(result0) && (len(str(*match)) > 0 ==> result0[:len(str(*match))] == str(*match))
+//@   loop 1 invariant hcur(h) != nil && history == hcur(h) && (fwd ==> -1 <= histPos) && (!fwd ==> histPos <= len(entries(history))) && (cur != nil ==> core.cvalid(cur)) && *match == old(*match)
+//@   loop 1 decreases ite(fwd, len(entries(history)) - histPos, histPos)
+
+//@ func (*Sources).getLine
+//@   props C09 C01
+//@   terminates
+//@   requires hnav(h) && (line != nil ==> cur == nil || cur.line == line)
+//@   assigns h.skip, h.undoing, h.cursor.pos, h.cursor.mark, mapof(h.lines), anymapof("map[int]*lineHistory"), anyof("lineHistory", "pos"), anyof("lineHistory", "items")
+//@   ensures result0 != nil && core.cvalid(result1) && result1.line == result0
+//@   ensures line != nil ==> result0 == line
+//@   ensures [uses-typed-text] line == nil && old(h.hpos) == -1 && hcur(h) != nil ==> *result0 == old(*h.line)
